@@ -152,6 +152,9 @@ def ops_for(unit):
             if math.isfinite(hi):
                 w = list(inside); w[i] = hi + 1.0; ops.append(("all", w))
                 w = list(inside); w[i] = hi; ops.append(("all", w))
+                w = list(inside); w[i] = hi + 1e-6; ops.append(("all", w))      # just outside (1e-6, as the property allows)
+            if math.isfinite(lo):
+                w = list(inside); w[i] = lo - 1e-6; ops.append(("all", w))
             w = list(inside); w[i] = NAN; ops.append(("all", w))
         allout = [(BOUND_KINDS[k][1] + 2.0) if math.isfinite(BOUND_KINDS[k][1]) else
                   ((BOUND_KINDS[k][0] - 2.0) if math.isfinite(BOUND_KINDS[k][0]) else 7.0) for k in kinds]
